@@ -388,5 +388,36 @@ def oracles(ctx, deep):
             e0, e1 = float((xc.abs() ** 2).sum()), float((yc.abs() ** 2).sum())
             if abs(e0 - e1) > 1e-3 * max(1.0, e0):
                 add(Violation("energy", "normalised fft2 changes the energy: %.6g -> %.6g for %s" % (e0, e1, cfg), {"config": cfg}, site))
+    # the shift helpers on their own, for every dtype and way of naming the axes (None, negative, unsorted)
+    for t in range(ctx.n(60, 600)):
+        nd = rng.randint(1, 4)
+        shape = [rng.randint(1, 6) for _ in range(nd)]
+        kind = rng.choice(["float", "complex", "int"])
+        gnp = np.random.RandomState(rng.randrange(1 << 30))
+        arr = gnp.randint(-9, 10, size=shape).astype(np.float32)
+        if kind == "complex":
+            arr = (arr + 1j * gnp.randint(-9, 10, size=shape)).astype(np.complex64)
+        elif kind == "int":
+            arr = arr.astype(np.int64)
+        axes_choice = rng.choice(["none", "negative", "positive"])
+        if axes_choice == "none":
+            dim_arg, np_axes = None, None
+        else:
+            k = rng.randint(1, nd)
+            ax = rng.sample(range(nd), k)
+            dim_arg = tuple((a - nd) if axes_choice == "negative" else a for a in ax)
+            np_axes = tuple(ax)
+        x = torch.from_numpy(arr.copy())
+        runs += 1
+        for nm, fn, ref in (("fftshift", T.fftshift, np.fft.fftshift), ("ifftshift", T.ifftshift, np.fft.ifftshift)):
+            cfg = {"function": nm, "shape": shape, "dtype": kind, "dim": list(dim_arg) if dim_arg is not None else None}
+            try:
+                got = fn(x.clone(), dim=dim_arg).numpy()
+            except Exception as e:  # noqa
+                add(Violation("shift-reference", "%s raises %s for %s" % (nm, type(e).__name__, cfg), {"config": cfg}, {"fn": nm, "kind": "raises"}))
+                continue
+            want = ref(arr, axes=np_axes)
+            if got.shape != want.shape or not np.array_equal(got, want):
+                add(Violation("shift-reference", "%s differs from the reference index map for %s" % (nm, cfg), {"config": cfg, "input": arr.tolist() if arr.size <= 24 and kind != "complex" else None}, {"fn": nm, "kind": "value"}))
     ctx.oracle_runs = runs
     return out
